@@ -69,6 +69,9 @@ class Pattern:
         for line in range(self.lines):
             for track in range(self.tracks):
                 new[line][track] = fn(self, line, track)
+        for row in new:
+            for note in row:
+                note.pattern = self
         self._data = new
         return self
 
@@ -88,6 +91,9 @@ class Pattern:
         new = deepcopy(self.data)
         for line, track, note in gen(self, new):
             new[line][track] = note
+        for row in new:
+            for note in row:
+                note.pattern = self
         self._data = new
         return self
 
